@@ -39,7 +39,7 @@ def main():
 
     interpreter.environment.put("args", scriptargs)
     interpreter.environment.put("scriptname", ValueString(args.script))
-    interpreter.environment.put("checkerlang_module_path", modulepath)
+    interpreter.base_environment.put("checkerlang_module_path", modulepath)
 
     with open(args.script, encoding="utf-8") as infile:
         script = infile.read()
